@@ -125,6 +125,12 @@ def eqkey(tree, jv):
         return (jv["o"], jv["d"])
     if name == "tuple":
         return tuple(eqkey(s, x) for s, x in zip(subs, jv))
+    if name == "sequence":
+        return tuple(eqkey(subs[0], x) for x in jv)
+    if name == "set":
+        return frozenset(eqkey(subs[0], x) for x in jv)
+    if name == "variant":
+        return ("variant", jv["i"], eqkey(subs[jv["i"]], jv["v"]))
     if name == "bool":
         return bool(jv)
     return jv
@@ -135,13 +141,16 @@ def draw_type(draw, depth, hashable=False, leaves=LEAVES, containers=auxref.CONT
     if depth <= 0 or draw(st.integers(0, 9)) < 3:
         return [draw(st.sampled_from(leaves)), []]
     if hashable:
-        kind = "tuple" if "tuple" in containers else None
-        if kind is None:
+        # set elements / mapping keys: every type with a hashable Python form
+        # (tuples most often, as in the sanctioned schemas; no mappings)
+        options = [k for k in ("tuple", "tuple", "tuple", "sequence", "set", "variant") if k in containers]
+        if not options:
             return [draw(st.sampled_from(leaves)), []]
+        kind = draw(st.sampled_from(options))
     else:
         kind = draw(st.sampled_from(containers))
     if kind == "sequence":
-        return ["sequence", [draw_type(draw, depth - 1, False, leaves, containers, max_tuple, variant_arities)]]
+        return ["sequence", [draw_type(draw, depth - 1, hashable, leaves, containers, max_tuple, variant_arities)]]
     if kind == "set":
         return ["set", [draw_type(draw, depth - 1, True, leaves, containers, max_tuple, variant_arities)]]
     if kind == "mapping":
@@ -156,7 +165,7 @@ def draw_type(draw, depth, hashable=False, leaves=LEAVES, containers=auxref.CONT
         n = draw(st.sampled_from([1, 2, 2, 3, 3, 4, max_tuple]))
         return ["tuple", [draw_type(draw, depth - 1, hashable, leaves, containers, max_tuple, variant_arities) for _ in range(n)]]
     n = draw(st.sampled_from(list(variant_arities)))
-    return ["variant", [draw_type(draw, depth - 1, False, leaves, containers, max_tuple, variant_arities) for _ in range(n)]]
+    return ["variant", [draw_type(draw, depth - 1, hashable, leaves, containers, max_tuple, variant_arities) for _ in range(n)]]
 
 
 def draw_value(draw, tree, in_key=False, max_len=5):
@@ -291,8 +300,11 @@ def validate(tree, jv, in_key=False):
 
 
 def hashable_type(tree):
+    """may this type be a set element / mapping key?  Every type with a hashable
+    Python form: leaves, and tuples, sequences (as tuples), sets (as frozensets)
+    and variants of such types - not mappings (Python has no hashable dict)."""
     name, subs = tree
-    if name == "tuple":
+    if name in ("tuple", "sequence", "set", "variant"):
         return all(hashable_type(s) for s in subs)
     return name in LEAVES
 
